@@ -4,12 +4,18 @@ use super::ast::*;
 use super::lexer::{Lexer, Token, TokenKind};
 use grafeo_common::utils::error::{Error, QueryError, QueryErrorKind, Result, SourceSpan};
 
+/// Maximum nesting depth (parentheses, lists, maps, NOT, unary minus, sub-patterns, ...) the
+/// parser accepts.
+const MAX_NESTING_DEPTH: usize = 128;
+
 /// GQL Parser.
 pub struct Parser<'a> {
     lexer: Lexer<'a>,
     current: Token,
     peeked: Option<Token>,
     source: &'a str,
+    /// Current nesting depth, see [`MAX_NESTING_DEPTH`].
+    depth: usize,
 }
 
 impl<'a> Parser<'a> {
@@ -22,6 +28,7 @@ impl<'a> Parser<'a> {
             current,
             peeked: None,
             source: input,
+            depth: 0,
         }
     }
 
@@ -1163,6 +1170,10 @@ impl<'a> Parser<'a> {
     }
 
     fn parse_unary_expression(&mut self) -> Result<Expression> {
+        self.nested(Self::parse_unary_expression_inner)
+    }
+
+    fn parse_unary_expression_inner(&mut self) -> Result<Expression> {
         match self.current.kind {
             TokenKind::Not => {
                 self.advance();
@@ -1794,6 +1805,19 @@ impl<'a> Parser<'a> {
             self.peeked = Some(self.lexer.next_token());
         }
         self.peeked.as_ref().unwrap().kind
+    }
+
+    /// Runs `f` one nesting level deeper.  Input nested more than [`MAX_NESTING_DEPTH`] levels is
+    /// rejected with a syntax error: the parser is a recursive descent and would otherwise
+    /// overflow the stack (which aborts the process) on a few KB of `((((...`.
+    fn nested<T>(&mut self, f: impl FnOnce(&mut Self) -> Result<T>) -> Result<T> {
+        if self.depth >= MAX_NESTING_DEPTH {
+            return Err(self.error("query is nested too deeply"));
+        }
+        self.depth += 1;
+        let result = f(self);
+        self.depth -= 1;
+        result
     }
 
     fn error(&self, message: &str) -> Error {
